@@ -295,6 +295,8 @@ def clock_instants(start, end):
     from qstrader.simulation.daily_bday import DailyBusinessDaySimulationEngine
     try:
         eng = DailyBusinessDaySimulationEngine(pts(start), pts(end), pre_market=False, post_market=False)
+        if (start.toordinal() + start.hour) % 4 == 0:
+            next(iter(eng), None)                  # sometimes the clock object was looked at before it is run
         return {to_py(e.ts) for e in eng}
     except Exception as e:
         raise Violation('C13', 'clock-raised/%s' % type(e).__name__, 'the simulation clock for %s .. %s raised %r'
@@ -366,6 +368,7 @@ def schedules_survive_sessions(start, end, acc, rng):
             raise Violation('C13', 'session-schedule', 'the %s session over %s .. %s (weekday %s) holds the schedule %s..., the '
                             'dates of the range give %s...' % (kind, start, end, wd, [str(t) for t in got[:3]],
                                                                [str(t) for t in want[:3]]), wit)
+        next(iter(sess.sim_engine), None)          # a look at the first event before the pass proper
         clock = [to_py(e.ts) for e in sess.sim_engine]
         if set(clock) != cs or clock != sorted(clock):
             raise Violation('C13', 'session-clock', 'the session over %s .. %s (burn-in inside the range) runs on a clock of %d '
@@ -426,6 +429,23 @@ def shard_c13(spec, acc):
         sesswl.run_case(cfg, acc, 'C13')
         acc.evaluations += 1
         acc.see('C13:session_start_times', cfg['start'][11:19])
+    if spec.get('stride', 1) > 1:
+        # the strided (quick) window skips most calendar edges: every start date of this shard's slice within three
+        # days of a month boundary is added with a few lengths (weekend month ends, year ends, the leap day)
+        seen = set(mine)
+        for d in days[spec['lo']:spec['hi']]:
+            if d in seen or not (d.day <= 3 or (d + dt.timedelta(days=3)).month != d.month):
+                continue
+            for st in tods:
+                start = cal.at(d, st)
+                for n in (0, 2, 9, 33):
+                    end = cal.at(d + dt.timedelta(days=n), cal.POST)
+                    try:
+                        acc.evaluations += all_schedules(start, end, acc)
+                    except Violation as v:
+                        acc.violation(v, v.witness)
+                        acc.evaluations += 1
+            acc.count('C13:month_edge_start_dates')
     for d in mine:
         if time.time() > t_end:
             acc.count('stopped_on_time_budget')
